@@ -36,6 +36,14 @@ type cmdCase struct {
 	InlineEvery int `json:"inline_every,omitempty"`
 	// Extra: masters (by index) that get one more replica each than Replicas says: uneven layouts
 	Extra []int `json:"extra,omitempty"`
+	// Switch: before command At the service configuration is updated at run time (OnSvcConfigUpdate) to read strategy To; every
+	// later command is judged by the new strategy
+	Switch []switchOp `json:"switch,omitempty"`
+}
+
+type switchOp struct {
+	At int `json:"at"`
+	To int `json:"to"`
 }
 
 type topoOp struct {
@@ -333,6 +341,11 @@ func TestRandomCommands(t *testing.T) {
 		if c.Masters >= 2 && rapid.Bool().Draw(t, "uneven") {
 			c.Extra = rapid.SliceOfN(rapid.IntRange(0, c.Masters-1), 1, 3).Draw(t, "extra")
 		}
+		if rapid.IntRange(0, 2).Draw(t, "switch") == 0 {
+			for k, m := 0, rapid.IntRange(1, 3).Draw(t, "nswitch"); k < m; k++ {
+				c.Switch = append(c.Switch, switchOp{At: rapid.IntRange(0, n-1).Draw(t, "swat"), To: rapid.IntRange(0, 2).Draw(t, "swto")})
+			}
+		}
 		if c.Masters >= 2 && c.Replicas >= 1 && rapid.IntRange(0, 2).Draw(t, "topo") == 0 {
 			for k, m := 0, rapid.IntRange(1, 2).Draw(t, "ntopo"); k < m; k++ {
 				c.Topo = append(c.Topo, topoOp{At: rapid.IntRange(0, n-1).Draw(t, "at"), Replica: rapid.IntRange(0, 5).Draw(t, "trep"), To: rapid.IntRange(0, 2).Draw(t, "tto"), Swap: rapid.Bool().Draw(t, "swap"), Failover: rapid.IntRange(0, 3).Draw(t, "failover") == 0})
@@ -381,6 +394,7 @@ func runCase(c cmdCase) (bool, *verdict) {
 	}
 	defer e.close()
 	nt := false
+	strategy, switched := c.Strategy, false
 	for i, args := range c.Cmds {
 		for _, op := range c.Topo {
 			if op.At != i {
@@ -449,12 +463,30 @@ func runCase(c cmdCase) (bool, *verdict) {
 				nt = true
 			}
 		}
+		for _, sw := range c.Switch {
+			if sw.At != i || sw.To == strategy {
+				continue
+			}
+			ncfg := sim.RedisConfig(sim.ProxyOpts{ReadStrategy: redispb.ReadStrategy(sw.To)})
+			ncfg.Listener = e.px.Cfg.Listener
+			if err := e.px.P.OnSvcConfigUpdate(ncfg); err != nil {
+				return nt, &verdict{"config-update-rejected", err.Error()}
+			}
+			strategy = sw.To
+			switched = true
+		}
 		e.inline = c.InlineEvery > 0 && i%c.InlineEvery == c.InlineEvery-1
-		inf, v := e.checkOne(args, c.Strategy)
+		inf, v := e.checkOne(args, strategy)
+		if v != nil && switched {
+			v.msg += fmt.Sprintf(" [the read strategy was switched at run time; in force now: %v]", redispb.ReadStrategy(strategy))
+		}
+		if switched && (c.Replicas > 0 || len(c.Extra) > 0) && ref.Supported(args[0]) {
+			nt = true
+		}
 		if v != nil {
 			return nt, v
 		}
-		if inf.unsupportedReal || ((c.Replicas > 0 || len(c.Extra) > 0) && c.Strategy > 0 && ref.Supported(args[0])) {
+		if inf.unsupportedReal || ((c.Replicas > 0 || len(c.Extra) > 0) && strategy > 0 && ref.Supported(args[0])) {
 			nt = true
 		}
 	}
